@@ -35,6 +35,7 @@ namespace
     std::string mesh_text;
     std::vector<Index> expect_graph;   // flattened like RankRec::parti_graphs
     std::string expect_name;
+    std::vector<std::string> extern_names;   // name restriction handed to the control (empty: none)
   };
   Shared* SH = nullptr;
 
@@ -111,6 +112,7 @@ namespace
         // priority and level) instead of through the _check_parti seam
         domain.use_explicit = false;
         domain.select_partitioners(true, false, true, false, 0, 0, 1);
+        if(!SH->extern_names.empty()) { std::deque<String> nm; for(const auto& x : SH->extern_names) nm.push_back(String(x)); domain.set_extern_names(nm); }
         std::istringstream iss(SH->mesh_text);
         Geometry::MeshFileReader reader;
         reader.add_stream(iss);
@@ -553,12 +555,18 @@ namespace
         text.erase(p, e + 12 - p);
       }
       sh.mesh_text = text;
+      // name restriction (--parti-extern-name): none; a list with the best one and the wrong-size one (the best one has to
+      // win although the other has the higher priority); a list without the best one (the low-priority one has to be taken)
+      const int name_mode = int(sim::cfg_int("extern_names", 0, 2));
+      std::vector<Index> want = best;
       sh.expect_name = "gen:best";
+      if(name_mode == 1) sh.extern_names = {"gen:best", "gen:other-size", "gen:no-such-partition"};
+      if(name_mode == 2) { sh.extern_names = {"gen:other-size", "gen:low"}; sh.expect_name = "gen:low"; want = seeded_owner(ne, np, cfg.assign_seed + 17u, 2); }
       sh.expect_graph.push_back(np); sh.expect_graph.push_back(ne);
       Index k = 0;
-      for(Index r = 0; r < np; ++r) { sh.expect_graph.push_back(k); for(Index o : best) if(o == r) ++k; }
+      for(Index r = 0; r < np; ++r) { sh.expect_graph.push_back(k); for(Index o : want) if(o == r) ++k; }
       sh.expect_graph.push_back(k);
-      for(Index r = 0; r < np; ++r) for(Index c = 0; c < ne; ++c) if(best[c] == r) sh.expect_graph.push_back(c);
+      for(Index r = 0; r < np; ++r) for(Index c = 0; c < ne; ++c) if(want[c] == r) sh.expect_graph.push_back(c);
       sim::probe("extern_partition_generated");
     }
     simmpi::world_begin(cfg.n, [cfg](int r) { S_::rank_body(r, cfg); });
